@@ -6,7 +6,9 @@ import (
 	"io"
 	"os"
 	"os/exec"
+	"path/filepath"
 	"sort"
+	"syscall"
 	"testing"
 	"time"
 
@@ -20,6 +22,9 @@ type c11Case struct {
 	S      StreamM
 	Pieces []int // sizes of the pieces the producer delivers, then it blocks
 	HTML   bool  `json:",omitempty"` // pp only: -html FILE (dump renderings go to the file, text still streams to stdout)
+	// Via (pp only): how pp gets the stream. 0: standard input; 1: a named pipe given as the
+	// FILE argument; 2: "/dev/stdin" given as the FILE argument.
+	Via int `json:",omitempty"`
 }
 
 // layout is the ground truth geometry of a stream.
@@ -359,11 +364,28 @@ func c11PPOnce(c c11Case, limit time.Duration) error {
 		}
 		return req
 	}
-	cmd := exec.Command(ppPath(), args...)
+	runArgs := args
+	var fifo string
+	switch c.Via {
+	case 1:
+		d, done := scratchDir("c11fifo")
+		defer done()
+		fifo = filepath.Join(d, "stream")
+		if err := syscall.Mkfifo(fifo, 0o600); err != nil {
+			return fmt.Errorf("HARNESS: mkfifo: %v", err)
+		}
+		runArgs = append(append([]string{}, args...), fifo)
+	case 2:
+		runArgs = append(append([]string{}, args...), "/dev/stdin")
+	}
+	cmd := exec.Command(ppPath(), runArgs...)
 	cmd.Env = append(os.Environ(), "GOTRACEBACK=all", "TERM=dumb")
-	stdin, err := cmd.StdinPipe()
-	if err != nil {
-		return fmt.Errorf("HARNESS: %v", err)
+	var stdin io.WriteCloser
+	var err error
+	if fifo == "" {
+		if stdin, err = cmd.StdinPipe(); err != nil {
+			return fmt.Errorf("HARNESS: %v", err)
+		}
 	}
 	stdout, err := cmd.StdoutPipe()
 	if err != nil {
@@ -371,6 +393,32 @@ func c11PPOnce(c c11Case, limit time.Duration) error {
 	}
 	if err := cmd.Start(); err != nil {
 		return fmt.Errorf("HARNESS: %v", err)
+	}
+	if fifo != "" {
+		// Opening the write end returns once pp has opened the pipe for reading; closing it
+		// later, as the only writer, is the end of the stream.
+		type opened struct {
+			f   *os.File
+			err error
+		}
+		ch := make(chan opened, 1)
+		go func() { f, err := os.OpenFile(fifo, os.O_WRONLY, 0); ch <- opened{f, err} }()
+		select {
+		case o := <-ch:
+			if o.err != nil {
+				_ = cmd.Process.Kill()
+				_ = cmd.Wait()
+				return fmt.Errorf("HARNESS: %v", o.err)
+			}
+			stdin = o.f
+		case <-time.After(60 * time.Second):
+			_ = cmd.Process.Kill()
+			_ = cmd.Wait()
+			if f, err := os.OpenFile(fifo, os.O_RDONLY|syscall.O_NONBLOCK, 0); err == nil {
+				f.Close() // releases the opener goroutine
+			}
+			return fmt.Errorf("HARNESS: pp did not open the named pipe within 60s")
+		}
 	}
 	defer func() {
 		stdin.Close()
@@ -443,12 +491,16 @@ var c11PP = Check[c11Case]{
 		o.Junk.Long = false
 		o.Dump.LongLines = false
 		s := genStream(t, o)
-		return c11Case{S: s, Pieces: alignPieces(t, &s, genPieces(t, len(s.Bytes()))), HTML: oneIn(t, 4, "html")}
+		c := c11Case{S: s, Pieces: alignPieces(t, &s, genPieces(t, len(s.Bytes()))), HTML: oneIn(t, 4, "html")}
+		if oneIn(t, 3, "viaFileArgument") {
+			c.Via = rapid.IntRange(1, 2).Draw(t, "via")
+		}
+		return c
 	},
 	Oracle: c11PPOracle,
 	Obs: func(c c11Case) Obs {
 		o := c11Lib.Obs(c)
-		o.Classes = append(o.Classes, "pp_session")
+		o.Classes = append(o.Classes, "pp_session", []string{"pp_reads_stdin", "pp_reads_named_pipe_argument", "pp_reads_dev_stdin_argument"}[c.Via])
 		o.Digest ^= 0x9e3779b97f4a7c15
 		return o
 	},
